@@ -946,7 +946,7 @@ def run_random(ctx):
             return
         counter[0] += 1
         path = os.path.join(ctx.workdir, 'c32_r%d.sqlite' % (counter[0] % 7))
-        env = M.build_env(case['diagram'], path)
+        env = M.build_env(case['diagram'], path, with_aux=bool(case.get('aux')))
         try:
             try:
                 M.load_data(env, case['data'])
@@ -956,7 +956,7 @@ def run_random(ctx):
         finally:
             M.cleanup_session_state(env)
             M.close_env(env)
-    ctx.run_test(t, {'case': case_strategy(ctx.tier)}, max_examples=ctx.scale(120, 2500), name='random_cases')
+    ctx.run_test(t, {'case': case_strategy(ctx.tier)}, max_examples=ctx.scale(120, 2000), name='random_cases')
 
 
 def run(ctx):
